@@ -42,6 +42,8 @@ type c14Model struct {
 	Restarted          bool     // the storage module has been restarted from its exported genesis
 	F2Deleted          bool     // the second file (Q6's only proof) has been deleted by its owner
 	Shut               []string // providers that have deregistered (they may still be named on an open form)
+	Q5Holds            bool     // the join attempt was accepted after all
+	BadProofs          int      // rejected join attempts of the proof-less provider so far (bounded)
 	VOff               bool     // the prover is currently not listed on the file
 	Rejoins            int
 }
@@ -120,6 +122,9 @@ func (s C14) Events(env world.Env, mm mc.Model) []string {
 		evs = append(evs, "Report:"+x+":V")
 	}
 	evs = append(evs, "Attest:Q2:Q3", "Report:Q2:Q3") // forms that were never requested
+	if m.BadProofs < 1 {
+		evs = append(evs, "BadProof:Q5") // the registered provider that holds no proof tries to join with a payload that does not verify
+	}
 	if s.Rejoin && m.VOff && m.Rejoins < 1 {
 		evs = append(evs, "Rejoin:V")
 	}
@@ -174,6 +179,9 @@ func (s C14) Apply(env world.Env, mm mc.Model, ev string) mc.Step {
 	if s.Extra && !m.F2Deleted {
 		holders = append(holders, "Q6")
 	}
+	if m.Q5Holds {
+		holders = append(holders, "Q5")
+	}
 	if len(m.Shut) > 0 { // a deregistered provider is not a registered proof holder any more (for forms drawn from now on)
 		var still []string
 		for _, h := range holders {
@@ -207,6 +215,14 @@ func (s C14) Apply(env world.Env, mm mc.Model, ev string) mc.Step {
 		}
 		m.Blocks++
 		st.Outcome = "block"
+	case "BadProof":
+		item, hl := c14File.proofFor(1) // the proof of another chunk than the one a newcomer is asked for
+		if ok, _ := postProofOK(w, env.Deliver(storagetypes.NewMsgPostProof(w.A(p[1]).Bech, c14File.merkle, u, m.Start, item, hl, 0))); ok {
+			m.Q5Holds = true // not this property's concern (C01's): from here on the provider does hold a proof
+		}
+		m.BadProofs++
+		st.Outcome = "ok"
+		st.Exercised = append(st.Exercised, "rejected-join-of-a-proofless-provider")
 	case "Rejoin":
 		item, hl := c14File.proofFor(0)
 		if ok, e := postProofOK(w, env.Deliver(storagetypes.NewMsgPostProof(v, c14File.merkle, u, m.Start, item, hl, 0))); !ok {
@@ -388,7 +404,7 @@ func init() {
 	CaseReplayers["C14/lapse-paths-size2"] = func(r *mc.Run, c string) { r.ReplayCase(c14LapseEnum(2), c) }
 	CaseReplayers["C14/lapse-paths-size3"] = func(r *mc.Run, c string) { r.ReplayCase(c14LapseEnum(3), c) }
 	Props["C14"] = Prop{Level: "model_checking", Run: func(r *mc.Run, tier string) {
-		r.Rules = append(r.Rules, "for each (form size, minimum) in {(1,1),(2,1),(2,2),(3,2),(3,3),(3,0),(4,2)}: BFS over request-attestation, request-report, Attest and Report by every account in {same-domain provider, 3 eligible providers, registered provider without proofs, the prover itself, unregistered proof holder} incl. repeats and never-requested forms, NextBlock (changes the shuffle); reference = set of distinct named signers per form")
+		r.Rules = append(r.Rules, "for each (form size, minimum) in {(1,1),(2,1),(2,2),(3,2),(3,3),(3,0),(4,2)}: BFS over request-attestation, request-report, Attest and Report by every account in {same-domain provider, 3 eligible providers, registered provider without proofs, the prover itself, unregistered proof holder} incl. repeats and never-requested forms, NextBlock (changes the shuffle); a rejected join attempt of the provider that holds no proof; reference = set of distinct named signers per form")
 		r.Assumptions = append(r.Assumptions, "7 signers, one file, forms created at up to 3 heights", strings.TrimSpace("whether a reached quorum completes the form is counted, not enforced (the statement demands safety only)"))
 		for _, sm := range c14Settings {
 			r.AddExplore(C14{Size: sm[0], Min: sm[1]}, opts(tier, 12, 16, 15, 240, 30, 300))
